@@ -453,6 +453,14 @@ func (p *prep) evalChannel(cut int, t tally) (f *vh.Failure) {
 	if f := expect("after the prefix packet", got, before, false); f != nil {
 		return f
 	}
+	if cut%4 == 1 {
+		// the consumer owns what it was handed: it overwrites the byte slices inside the delivered
+		// packages and uses their spare capacity (what append does) - the bytes of the
+		// half-received package behind them are not its to touch, so they must not be reachable
+		if scribble(got) > 0 {
+			t["channel:consumer-overwrites-delivered-byte-slices"]++
+		}
+	}
 	if cut%5 == 3 {
 		// an empty packet (header only, no EOM) between the two halves of the package
 		ch.WritePacket(packet(nil, 0))
@@ -638,6 +646,11 @@ func (p *prep) runCut(cut int, t tally) (f *vh.Failure) {
 			return f
 		}
 		t["mode:channel"]++
+		if cut%7 == 5 {
+			if f := p.evalPendingError(cut, t); f != nil {
+				return f
+			}
+		}
 	}
 	t["prefixes"]++
 	t["span:"+sk]++
@@ -816,4 +829,122 @@ func TestPrefixes(t *testing.T) {
 			vh.Check(t, "TestPrefixes/"+kind, vh.N(320, 8000), genCase(kind), runCase)
 		})
 	}
+}
+
+// scribble overwrites every []byte value reachable through the exported API of the delivered
+// packages, including its spare capacity, and reports how many bytes it wrote.
+func scribble(pkgs []tds.Package) int {
+	n := 0
+	hit := func(b []byte) {
+		b = b[:cap(b)]
+		for i := range b {
+			b[i] = 0xA5
+		}
+		n += len(b)
+	}
+	fields := func(fs []tds.FieldData) {
+		for _, f := range fs {
+			if b, ok := f.Value().([]byte); ok {
+				hit(b)
+			}
+		}
+	}
+	for _, p := range pkgs {
+		switch x := p.(type) {
+		case *tds.RowPackage:
+			fields(x.DataFields)
+		case *tds.ParamsPackage:
+			fields(x.DataFields)
+		case *tds.EEDPackage:
+			hit(x.SQLState)
+		}
+	}
+	return n
+}
+
+// evalPendingError: an earlier, well-formed response announced a packet size the library refuses;
+// that error is still queued when the next response arrives in two packets, the first of which
+// ends inside a package (the consumer is busy elsewhere and reads only afterwards). What was
+// received of the incomplete package has to be kept: in the end the consumer gets everything,
+// and the one error.
+func (p *prep) evalPendingError(cut int, t tally) (f *vh.Failure) {
+	defer func() {
+		if r := recover(); r != nil {
+			f = vh.Failf(class(p.kind, "panic"), "%s, channel with an unfetched error: panic: %v", p.describe(cut), r)
+		}
+	}()
+	ctx, cancel := context.WithCancel(context.Background())
+	defer cancel()
+	conn, _, err := tds.VerifNewConn(ctx, peer.NewPipe(), &tds.Info{ChannelPackageQueueSize: 1000}, false)
+	if err != nil {
+		vh.HarnessBug("VerifNewConn: %v", err)
+	}
+	ch, err := conn.NewChannel()
+	if err != nil {
+		vh.HarnessBug("NewChannel: %v", err)
+	}
+	packet := func(b []byte, status tds.PacketHeaderStatus) *tds.Packet {
+		return &tds.Packet{Header: tds.PacketHeader{MsgType: tds.TDS_BUF_RESPONSE, Status: status, Length: uint16(tds.PacketHeaderSize + len(b))}, Data: append([]byte{}, b...)}
+	}
+	prelude := []rc.P{{Env: &rc.EnvChange{Members: []rc.EnvMember{{Type: rc.EnvPackSize, New: "70000", Old: "512"}}}}, {Done: &rc.Done{Tok: rc.TokDone}}}
+	body, _, _, err := rc.EncodeStream(prelude)
+	if err != nil {
+		vh.HarnessBug("encode: %v", err)
+	}
+	ch.WritePacket(packet(body, tds.TDS_BUFSTAT_EOM))
+	if ch.VerifChanErrLen() == 0 {
+		return nil // this tree reports the refused size some other way: nothing is pending
+	}
+	ch.WritePacket(packet(p.stream[:p.start+cut], 0))
+	ch.WritePacket(packet(p.stream[p.start+cut:], tds.TDS_BUFSTAT_EOM))
+	var got []tds.Package
+	nerr := 0
+	for i := 0; i < 10000; i++ {
+		pkg, err := ch.NextPackage(ctx, false)
+		if errors.Is(err, tds.ErrNoPackageReady) {
+			// a non-waiting call may answer "nothing ready" although an error is queued (it
+			// picks among what is ready): ask again as long as one is
+			if ch.VerifChanErrLen() > 0 {
+				continue
+			}
+			break
+		}
+		if err != nil {
+			nerr++
+			continue
+		}
+		got = append(got, pkg)
+	}
+	want := []rc.P{prelude[1]}
+	last := prelude[1]
+	for _, x := range p.pkgs {
+		if delivered(x) {
+			want = append(want, x)
+			last = x
+		}
+	}
+	synthetic := !(last.Done != nil && last.Done.Status == rc.DoneFinal) || len(want) == 1
+	n := len(want)
+	if synthetic {
+		n++
+	}
+	if len(got) != n {
+		return vh.Failf(class(p.kind, "channel-delivery"), "%s, channel with an unfetched error of an earlier response (refused packet size): %d packages were delivered (%v), expected %d", p.describe(cut), len(got), clip(got), n)
+	}
+	var lf *rc.Fmt
+	for _, x := range p.pkgs {
+		if x.Fmt != nil {
+			lf = x.Fmt
+		}
+	}
+	for i, w := range want {
+		if err := pkggen.LibEqual(w, lf, got[i]); err != nil {
+			return vh.Failf(class(pkggen.KindOf(w), "channel-delivery"), "%s, channel with an unfetched error of an earlier response: package %d (%s) was delivered with wrong fields: %v", p.describe(cut), i, pkggen.KindOf(w), err)
+		}
+	}
+	if nerr != 1 {
+		return vh.Failf(class(p.kind, "channel-error"), "%s, channel with an unfetched error of an earlier response: %d errors were reported, expected the one about the refused packet size", p.describe(cut), nerr)
+	}
+	t["channel:unfetched-error-of-an-earlier-response"]++
+	return nil
 }
